@@ -47,3 +47,30 @@ func VerifHarness_C08_ops_stateless() {
 	rt.RaceFree("no worker writes a cell another worker reads or writes")
 	_, _ = r1, r2
 }
+
+func init() { rt.Register("C08_pow_twice", VerifHarness_C08_pow_twice) }
+
+// Two Pow calls in one process (small exponents decided by the reference
+// square-and-multiply over the specification product): the second result does
+// not depend on the first call.
+func VerifHarness_C08_pow_twice() {
+	bases := []T{0, 1, 3, 5, 0x405, 0x1235}
+	t1, t2 := bases[rt.Choice("t1", 6)], bases[rt.Choice("t2", 6)]
+	p1 := []uint32{5, 65541, 65543, 0x04000009}[rt.Choice("p1", 4)]
+	p2 := []uint32{5, 7, 9, 65543}[rt.Choice("p2", 4)]
+	_ = t1.Pow(p1)
+	got := t2.Pow(p2)
+	// t^p == t^(p mod 65535) for t != 0 (the group has order 65535); 0^p == 0 for p > 0
+	e := p2 % 65535
+	if t2 == 0 {
+		e = 1
+	}
+	want := uint16(1)
+	for i := uint32(0); i < e; i++ {
+		want = rt.GFMul(want, uint16(t2))
+	}
+	if p2 == 0 {
+		want = 1
+	}
+	rt.Assert(uint16(got) == want, "Pow is the p-fold product, whatever was computed before")
+}
